@@ -70,6 +70,9 @@ class BaseWorld:
 
     # ---- calling the real code
     def call(self, thunk, stubs=None):
+        stubs = list(stubs or [])
+        if self.symbolic:
+            stubs += world.rewrite_stubs()
         with self._shims(), _Stubs(stubs):
             try:
                 v = thunk()
@@ -112,6 +115,8 @@ class SymWorld(BaseWorld):
         self.in_dims = {}  # letter -> size (int | SymInt)
         self.in_arrays = {}  # name -> SymArr (input, pristine frozen reader)
         self.in_numbers = {}  # name -> z3 Real
+        self.in_positions = {}  # tag -> z3 Int (position of a selected item)
+        self.in_subsets = {}  # tag -> (sub item list, parent item list)
 
     def size_terms(self):
         return [n.e for n in self.in_dims.values() if isinstance(n, SymInt)]
@@ -150,7 +155,14 @@ class SymWorld(BaseWorld):
 
             values[name] = build([], cs)
         numbers = {name: val(e) for name, e in self.in_numbers.items()}
-        return {"sizes": sizes, "values": values, "numbers": numbers}
+        positions = {tag: val(e) for tag, e in self.in_positions.items()}
+        subsets = {}
+        for tag, (sub, par) in self.in_subsets.items():
+            n = sizes.get(tag)
+            if n is None or n > 8:
+                continue
+            subsets[tag] = [val(par._pos(sub._at(z3.IntVal(j)))) for j in range(n)]
+        return {"sizes": sizes, "values": values, "numbers": numbers, "positions": positions, "subsets": subsets}
 
     def _shims(self):
         return world.shims()
@@ -183,6 +195,48 @@ class SymWorld(BaseWorld):
         if hi is not None:
             self.c.assume(v.e < to_int(hi))
         return v
+
+    # items / labels
+    def item_in(self, dim, tag):
+        """an item of `dim` at an arbitrary position -> (item, position)"""
+        p = SymInt(z3.Int(f"p_{tag}"))
+        self.c.assume(z3.And(p.e >= 0, p.e < to_int(self.size_of(dim))))
+        self.in_positions[tag] = p.e
+        return world.Item(dim.items.at_expr(p), tag), p
+
+    def foreign_item(self, tag, dims):
+        """an item that occurs in none of `dims`"""
+        e = z3.Int(f"foreign_{tag}")
+        for d in dims:
+            self.c.assume(z3.Not(d.items.contains_expr(e)))
+        return world.Item(e, tag)
+
+    def subset_dim(self, parent, letter, tag, name=None, subset=True):
+        """Dimension whose items are (if subset) items of `parent`, in arbitrary order"""
+        d = world.make_dimension(letter, name=name or f"Sub{tag}", tag=tag)
+        self.in_dims[tag] = d.items.n
+        if subset:
+            d.items.assume_subset_of(parent.items)
+        self.in_subsets[tag] = (d.items, parent.items)
+        return d
+
+    def item_list(self, parent, tag):
+        """user-supplied list of pairwise distinct items of parent (arbitrary order, symbolic length)"""
+        lst = world.SymItemList(tag)
+        self.in_dims[tag] = lst.n
+        lst.assume_subset_of(parent.items)
+        self.in_subsets[tag] = (lst, parent.items)
+        return lst
+
+    def item_at(self, items, j):
+        return world.Item(items.at_expr(to_int(j)))
+
+    def index_in(self, items, item):
+        """-> (contained, position)"""
+        return wrap(items.contains_expr(item.e)), wrap(items._pos(item.e))
+
+    def items_len(self, items):
+        return symnp.sh_len(items)
 
     # logic
     def assume(self, cond, why=None):
@@ -268,10 +322,13 @@ class ConcWorld(BaseWorld):
 
     symbolic = False
 
-    def __init__(self, sizes=None, seed=0, fill=None, default_size=2):
+    def __init__(self, sizes=None, seed=0, fill=None, default_size=2, positions=None, subsets=None):
         super().__init__()
+        self.positions = dict(positions or {})
+        self.subsets = dict(subsets or {})
         self.sizes = dict(sizes or {})
         self.rng = random.Random(seed)
+        self.big = seed % 4 == 3  # every fourth seed explores larger dimensions
         self.fill = fill
         self.default_size = default_size
         self.checked = 0
@@ -291,7 +348,7 @@ class ConcWorld(BaseWorld):
         if n is None:
             n = self.sizes.get(tag)
         if n is None:
-            n = max(lo, self.rng.choice([1, 2, 3]) if self.default_size is None else self.default_size)
+            n = max(lo, self.rng.choice([4, 5, 6] if self.big else [1, 2, 3]) if self.default_size is None else self.default_size)
         n = max(int(n), lo)
         self._used_sizes[tag] = n
         name = name or f"Dim{letter.upper()}{letter}"
@@ -333,6 +390,58 @@ class ConcWorld(BaseWorld):
         lo = 0 if lo is None else int(lo)
         hi = lo + 3 if hi is None else int(hi)
         return self.rng.randrange(lo, max(hi, lo + 1))
+
+    # items / labels
+    def item_in(self, dim, tag):
+        n = len(dim.items)
+        p = self.positions.get(tag)
+        if p is None or not (0 <= p < n):
+            p = self.rng.randrange(n)
+        self.inputs.setdefault("_positions", {})[tag] = p
+        return dim.items[p], p
+
+    def foreign_item(self, tag, dims):
+        return f"foreign_{tag}"
+
+    def _choose_positions(self, parent_items, tag, subset=True):
+        n = len(parent_items)
+        pos = self.subsets.get(tag)
+        if pos is not None and all(isinstance(p, int) and 0 <= p < n for p in pos) and len(set(pos)) == len(pos) and pos:
+            return list(pos)
+        m = self.sizes.get(tag)
+        if m is None or not (1 <= m <= n):
+            m = self.rng.randint(1, n)
+        pos = list(range(n))
+        self.rng.shuffle(pos)
+        return pos[:m]
+
+    def subset_dim(self, parent, letter, tag, name=None, subset=True):
+        from flodym.dimensions import Dimension
+
+        pos = self._choose_positions(parent.items, tag)
+        items = [parent.items[p] for p in pos]
+        if not subset:
+            items = items + [f"notin_{tag}"]
+        self._used_sizes[tag] = len(items)
+        self.inputs.setdefault("_subsets", {})[tag] = pos
+        return Dimension(name=name or f"Sub{tag}", letter=letter, items=items)
+
+    def item_list(self, parent, tag):
+        pos = self._choose_positions(parent.items, tag)
+        self._used_sizes[tag] = len(pos)
+        self.inputs.setdefault("_subsets", {})[tag] = pos
+        return [parent.items[p] for p in pos]
+
+    def item_at(self, items, j):
+        return items[int(j)]
+
+    def index_in(self, items, item):
+        if item in items:
+            return True, list(items).index(item)
+        return False, 0
+
+    def items_len(self, items):
+        return len(items)
 
     def assume(self, cond, why=None):
         if not bool(cond):
